@@ -96,7 +96,7 @@ def main(ctx):
         r = rng("C39", ctx.seed, "link", li)
         if li % 4 == 3:
             # ping-pong chains: every hop is a cross-group request arriving in the hand-off window
-            objs = manyobj.build_pingpong(ctx, r, pairs=r.choice([4, 8, 12]), chain=ctx.pick(600, 3000), tag=f"pp{li}")
+            objs = manyobj.build_pingpong(ctx, r, pairs=r.choice([10, 12, 16]), chain=ctx.pick(2000, 4000), tag=f"pp{li}")
         else:
             n = r.choice([40, 80, 150] if ctx.quick else [50, 120, 300, 800, 2000])
             objs = manyobj.build(ctx, r, n, f"l{li}", fns_per_obj=r.choice([2, 3, 4]), fanout=r.choice([2, 3, 5]))
@@ -112,7 +112,7 @@ def main(ctx):
         r = rng("C39", ctx.seed, "cfg", li)
         for s in range(seeds):
             fpg = 1 if li % 4 == 3 else r.choice([1, 1, 2, 5, 0])
-            threads = r.choice([2, 3, 4, 8, 16])
+            threads = r.choice([8, 16, 16]) if li % 4 == 3 else r.choice([2, 3, 4, 8, 16])
             pct = r.choice([20, 50, 80])
             sites = r.choice(SITES)
             jobs.append((li, objs, canon, (fpg, threads, ctx.seed * 1000 + s + 1, pct, sites)))
